@@ -71,7 +71,7 @@ pub fn block_s(fam: Fam) -> BoxedStrategy<Block> {
         Fam::Set(s) => crate::l1::insn_strategy(s),
         Fam::Jumps => jump_insn_s(),
     };
-    (proptest::collection::vec(pt::u16s(), 8), (segv(), segv(), segv()), pt::flagword(), insn, proptest::collection::vec(pt::u16s(), 10), 0u8..3)
+    (proptest::collection::vec(pt::u16s(), 8), (segv(), segv(), segv()), pt::flagword(), insn, proptest::collection::vec(pt::u16s(), 10), 0u8..4)
         .prop_map(|(r, (d, e, s), flags, insn, vals, jkind)| {
             let mut regs = [0u16; 8];
             regs.copy_from_slice(&r);
@@ -202,6 +202,7 @@ pub fn build(c: &FCase, openq: &Quirks) -> Built {
     regs0.r[CS] = 0xFFFF;
     let mut rn = Runner { mach: Machine::new(regs0), labels };
     rn.mach.mem.dense = Some(std::sync::Arc::new(image));
+    let mut procs: Vec<Item> = Vec::new();
     let mut code: Vec<Item> = vec![Item::Label("start".into())];
     let mut events: Vec<Ev> = Vec::new();
     let mut ev_block: Vec<usize> = Vec::new();
@@ -262,8 +263,10 @@ pub fn build(c: &FCase, openq: &Quirks) -> Built {
             _ => {}
         }
         let is_loop = matches!(insn.mn, "loop" | "loope" | "loopz" | "loopne" | "loopnz");
-        let jkind = if c.fam == Fam::Jumps { if is_loop { b.jkind } else { 0 } } else { 0 };
-        if jkind != 0 {
+        // 3 = the same jump line executed three times (inside a procedure called three times) with CX = a, b, a: only
+        // MOV / CALL / RET lie between the executions, so the flag word is the same each time
+        let jkind = if c.fam == Fam::Jumps { if b.jkind == 3 { 3 } else if is_loop { b.jkind } else { 0 } } else { 0 };
+        if jkind == 1 || jkind == 2 {
             r[2] = if b.vals[7] & 7 != 0 { r[2] % 40 } else { r[2] % 3000 };
             work += 2 * (if r[2] == 0 { 65536 } else { r[2] as u64 });
         }
@@ -347,8 +350,8 @@ pub fn build(c: &FCase, openq: &Quirks) -> Built {
         if c.fam == Fam::Jumps {
             let t = format!("t_{}", k);
             insn.ops = vec![Opd::Name(t.clone())];
-            tested.push(format!("{} ({})", insn.mn, ["forward", "self", "backward"][jkind as usize]));
-            classes.push(format!("l3/jump/{}", ["forward", "self-target", "backward-loop"][jkind as usize]));
+            tested.push(format!("{} ({})", insn.mn, ["forward", "self", "backward", "revisited"][jkind as usize]));
+            classes.push(format!("l3/jump/{}", ["forward", "self-target", "backward-loop", "revisited-line"][jkind as usize]));
             match jkind {
                 0 => {
                     code.push(Item::Ins(insn.clone()));
@@ -377,6 +380,28 @@ pub fn build(c: &FCase, openq: &Quirks) -> Built {
                         classes.push("l3/jump/self-target-repeated".into());
                     }
                 }
+                3 => {
+                    let pn = format!("r_{}", k);
+                    let fall = Insn::new("add", vec![Opd::R16(R16::BP), Opd::Imm(1, ImmKind::SW)]);
+                    procs.push(Item::Proc { name: pn.clone(), body: vec![Item::Ins(insn.clone()), Item::Ins(fall.clone()), Item::Label(t)] });
+                    let nz = (b.vals[0] | 1) & 0x7FFF;
+                    let (a, bb) = if b.vals[2] & 1 == 0 { (0u16, nz) } else { (nz, 0u16) };
+                    let mut outcomes = Vec::new();
+                    for cxv in [a, bb, a] {
+                        let m = mov16(R16::CX, cxv);
+                        rn.run(&m);
+                        code.push(Item::Ins(m));
+                        code.push(Item::Ins(Insn::new("call", vec![Opd::Name(pn.clone())])));
+                        let taken = !matches!(rn.run(&insn), Outcome::Next);
+                        if !taken {
+                            rn.run(&fall);
+                        }
+                        outcomes.push(taken);
+                    }
+                    if outcomes[0] != outcomes[1] {
+                        classes.push("l3/jump/revisited-line-with-different-outcomes".into());
+                    }
+                }
                 _ => {
                     let body = Insn::new("add", vec![Opd::R16(R16::BP), Opd::Imm(1, ImmKind::SW)]);
                     code.push(Item::Label(t));
@@ -398,6 +423,41 @@ pub fn build(c: &FCase, openq: &Quirks) -> Built {
                     }
                 }
             }
+            nontrivial = true;
+        } else if c.fam == Fam::Set(FormSet::Transfer) && b.vals[9] % 6 == 4 && r[4] >= 0x40 && r[4] <= 0xFFC0 {
+            // the 8086 stack across a CALL: the procedure pops what its caller pushed and leaves values behind (CALL and
+            // RET of this emulator keep their return addresses elsewhere, so PUSH/POP pair up across them)
+            let pn = format!("q_{}", k);
+            let pool = [
+                Insn::new("pop", vec![Opd::R16(R16::BX)]),
+                Insn::new("push", vec![Opd::R16(R16::DI)]),
+                Insn::new("push", vec![Opd::R16(R16::SI)]),
+                Insn::new("pop", vec![Opd::R16(R16::DX)]),
+                Insn::new("push", vec![Opd::R16(R16::BP)]),
+            ];
+            let body: Vec<Insn> = (0..2 + (b.vals[1] % 3) as usize).map(|j| pool[(b.vals[2] as usize + j * 2) % pool.len()].clone()).collect();
+            let explicit_ret = b.vals[3] & 1 == 1;
+            let mut items: Vec<Item> = body.iter().cloned().map(Item::Ins).collect();
+            if explicit_ret {
+                items.push(Item::Ins(Insn::new("ret", vec![])));
+            }
+            procs.push(Item::Proc { name: pn.clone(), body: items });
+            let pre = [Insn::new("push", vec![Opd::R16(R16::AX)]), Insn::new("push", vec![Opd::R16(R16::CX)])];
+            let post = [Insn::new("pop", vec![Opd::R16(R16::CX)]), Insn::new("pop", vec![Opd::R16(R16::AX)]), Insn::new("pop", vec![Opd::R16(R16::BX)])];
+            for i in &pre {
+                rn.run(i);
+                code.push(Item::Ins(i.clone()));
+            }
+            code.push(Item::Ins(Insn::new("call", vec![Opd::Name(pn)])));
+            for i in &body {
+                rn.run(i);
+            }
+            for i in &post {
+                rn.run(i);
+                code.push(Item::Ins(i.clone()));
+            }
+            tested.push(format!("call (procedure body: {})", body.iter().map(canonical).collect::<Vec<_>>().join("; ")));
+            classes.push("l3/stack-across-a-call".into());
             nontrivial = true;
         } else {
             let (nacc, e) = rn.exec(&insn);
@@ -471,6 +531,8 @@ pub fn build(c: &FCase, openq: &Quirks) -> Built {
             pr(&rn, &mut code, PrintStmt::MemRange(lo, hi), 0);
         }
     }
+    procs.extend(code);
+    let code = procs;
     Built { prog: Program { data, code }, events, ev_block, ev_undef, classes, nontrivial, tested, long_loop: work > 2500, sets_tf }
 }
 
